@@ -100,11 +100,27 @@ func clip(s string, n int) string {
 
 // cleanRun makes one fault-free call and judges it.  It returns nil after a
 // violation.
-func cleanRun(c *engine.Ctx, n int, fam string, rs uint64, fk string) *baseRun {
-	c.Eval(1)
+//
+// quiet: the same (n, weights) is judged by a clean/<family> unit; a failure
+// is only counted here (one key per defect and family, smallest n first).
+func cleanRun(c *engine.Ctx, n int, fam string, rs uint64, fk string, quiet bool) *baseRun {
+	violation := c.Violation
+	if quiet {
+		violation = func(key string, detail interface{}, observed, expected string) {
+			c.Obs("base_run_violations_left_to_the_clean_units", 1)
+		}
+	} else {
+		c.Eval(1)
+	}
 	c.Obs("clean_runs", 1)
 	c.Obs("clean_runs:"+fam, 1)
 	wit := fmt.Sprintf("n=%d,w=%s", n, fk)
+	callKey := "LIB|" + wit
+	if fam == randFamily {
+		// seeded part: one key per kind of failure, the concrete witness
+		// (n, seed word, matrix) is in the detail
+		wit = "w=" + randFamily
+	}
 	type call struct{ i, j int }
 	var bad []call
 	seen := map[call]int{}
@@ -122,20 +138,20 @@ func cleanRun(c *engine.Ctx, n int, fam string, rs uint64, fk string) *baseRun {
 	}
 	w := &recWriter{pos: -1}
 	var err error
-	pi := c.Call("LIB|"+wit, func() { err = tsp.LIB(w, n, wf) })
-	det := caseDetail{N: n, Weights: fam, RS: rs, Matrix: matrixRows(fam, n, rs), Output: clip(string(w.data), 3000)}
+	pi := c.Call(callKey, func() { err = tsp.LIB(w, n, wf) })
+	det := caseDetail{N: n, Weights: fk, RS: rs, Matrix: matrixRows(fam, n, rs), Output: clip(string(w.data), 3000)}
 	if pi != nil {
-		c.Violation("LIB|panic|"+engine.SiteNoLine(pi.Site)+"|"+wit, det, pi.String(), "LIB returns")
+		violation("LIB|panic|"+engine.SiteNoLine(pi.Site)+"|"+wit, det, pi.String(), "LIB returns")
 		return nil
 	}
 	c.Obs("weight_calls", ncalls)
 	c.Obs("write_calls_fault_free", len(w.sizes))
 	if err != nil {
-		c.Violation("LIB|error-without-write-failure|"+wit, det, "error "+err.Error(), "nil: no write failed")
+		violation("LIB|error-without-write-failure|"+wit, det, "error "+err.Error(), "nil: no write failed")
 		return nil
 	}
 	if len(bad) > 0 {
-		c.Violation("LIB|weights-called-out-of-range|"+wit, det, fmt.Sprintf("weights called with (i,j) in %v", bad), "only 0 <= j < i < n")
+		violation("LIB|weights-called-out-of-range|"+wit, det, fmt.Sprintf("weights called with (i,j) in %v", bad), "only 0 <= j < i < n")
 		return nil
 	}
 	dups, missing := 0, 0
@@ -161,7 +177,7 @@ func cleanRun(c *engine.Ctx, n int, fam string, rs uint64, fk string) *baseRun {
 		pe = checkDoc(d, n, func(i, j int) int64 { return weightValue(fam, n, rs, i, j) })
 	}
 	if pe != nil {
-		c.Violation("LIB|output|"+pe.Kind+"|"+wit, det, pe.Msg, "a TSPLIB file with DIMENSION n and rows weights(i,0..i-1) 0 in LOWER_DIAG_ROW, then EOF")
+		violation("LIB|output|"+pe.Kind+"|"+wit, det, pe.Msg, "a TSPLIB file with DIMENSION n and rows weights(i,0..i-1) 0 in LOWER_DIAG_ROW, then EOF")
 		return nil
 	}
 	if d.BlankInSect > 1 || (d.BlankInSect == 1 && d.HasEOF) {
@@ -245,7 +261,7 @@ func (b *baseRun) location(p int) (sect, loc string) {
 
 func faultPlane(c *engine.Ctx, n int, fam string, rs uint64, fk string) {
 	c.Obs("fault_units", 1)
-	b := cleanRun(c, n, fam, rs, fk)
+	b := cleanRun(c, n, fam, rs, fk, fam != randFamily)
 	if b == nil {
 		c.Obs("fault_units_skipped_after_clean_violation", 1)
 		return
@@ -255,8 +271,10 @@ func faultPlane(c *engine.Ctx, n int, fam string, rs uint64, fk string) {
 	c.Obs(fmt.Sprintf("writes_per_run:%s", wBucket(W)), 1)
 	c.ObsMax("writes_per_run", W)
 	c.Obs(fmt.Sprintf("fault_plane:n=%s", nBucket(n)), 1)
+	sects, locs := make([]string, W), make([]string, W)
 	for p := 0; p < W; p++ {
-		sect, _ := b.location(p)
+		sect, loc := b.location(p)
+		sects[p], locs[p] = sect, loc
 		c.Obs("positions:"+sect, 1)
 		if sect == "weights" {
 			c.Obs("positions:weights:"+writeKind(b.data[b.offs[p]:b.offs[p]+b.sizes[p]]), 1)
@@ -268,8 +286,8 @@ func faultPlane(c *engine.Ctx, n int, fam string, rs uint64, fk string) {
 			if c.Stopped() {
 				return
 			}
-			sect, loc := b.location(p)
-			w := &recWriter{pos: p, mode: mode}
+			sect, loc := sects[p], locs[p]
+			w := &recWriter{pos: p, mode: mode, data: make([]byte, 0, len(b.data)), sizes: make([]int, 0, W+4)}
 			var err error
 			pi := c.Call(fmt.Sprintf("LIB|n=%d,w=%s|%s@%d", n, fk, mode, p), func() { err = tsp.LIB(w, n, wf) })
 			ev := event{K: "fault", N: n, WF: fam, RS: rs, W: W, Fault: &faultDesc{Pos: p, Mode: mode, Len: b.sizes[p], Sect: sect},
@@ -293,10 +311,12 @@ func faultPlane(c *engine.Ctx, n int, fam string, rs uint64, fk string) {
 			if w.writesAfter > 0 && mode == modePermanent {
 				c.Obs("permanent:runs_with_writes_attempted_after_the_failure", 1)
 			}
-			det := caseDetail{N: n, Weights: fam, RS: rs, Matrix: matrixRows(fam, n, rs), Fault: mode, Pos: p, W: W, Sect: sect,
-				Note: fmt.Sprintf("write %d of %d carries %q in the fault-free run; %d of %d bytes were accepted in the injected run", p, W, clip(string(b.data[b.offs[p]:b.offs[p]+b.sizes[p]]), 60), len(w.data), len(b.data))}
+			det := func() caseDetail {
+				return caseDetail{N: n, Weights: fam, RS: rs, Matrix: matrixRows(fam, n, rs), Fault: mode, Pos: p, W: W, Sect: sect,
+					Note: fmt.Sprintf("write %d of %d carries %q in the fault-free run; %d of %d bytes were accepted in the injected run", p, W, clip(string(b.data[b.offs[p]:b.offs[p]+b.sizes[p]]), 60), len(w.data), len(b.data))}
+			}
 			if pi != nil {
-				c.Violation("LIB|panic-on-write-failure|"+engine.SiteNoLine(pi.Site)+"|"+mode+"|at="+loc, det, pi.String(), "a non-nil error")
+				c.Violation("LIB|panic-on-write-failure|"+engine.SiteNoLine(pi.Site)+"|"+mode+"|at="+loc, det(), pi.String(), "a non-nil error")
 				continue
 			}
 			if !w.fired {
@@ -317,7 +337,7 @@ func faultPlane(c *engine.Ctx, n int, fam string, rs uint64, fk string) {
 			// online verdict (so that the witness can be replayed); the offline
 			// checker derives the same verdict, under the same key, from the log
 			if err == nil {
-				c.Violation(violKey(mode, loc), det, fmt.Sprintf("LIB returned nil although write %d failed (%d of %d bytes reached the writer)", p, len(w.data), len(b.data)), "a non-nil error")
+				c.Violation(violKey(mode, loc), det(), fmt.Sprintf("LIB returned nil although write %d failed (%d of %d bytes reached the writer)", p, len(w.data), len(b.data)), "a non-nil error")
 			}
 		}
 	}
@@ -368,7 +388,7 @@ func run(c *engine.Ctx) {
 		fam := fam
 		c.Unit("clean/"+fam, func() {
 			for n := 0; n <= maxClean; n++ {
-				if cleanRun(c, n, fam, 0, fam) == nil {
+				if cleanRun(c, n, fam, 0, fam, false) == nil {
 					return
 				}
 				if n == 3 {
@@ -391,7 +411,7 @@ func run(c *engine.Ctx) {
 				if idx >= 26 {
 					n = rg.Intn(maxClean + 1)
 				}
-				if cleanRun(c, n, randFamily, rg.U64(), famKey(randFamily, idx)) == nil {
+				if cleanRun(c, n, randFamily, rg.U64(), famKey(randFamily, idx), false) == nil {
 					return
 				}
 			}
@@ -417,7 +437,7 @@ func run(c *engine.Ctx) {
 
 	// 3. thorough: real files under strace write(2) error injection.
 	if c.Thorough() {
-		for _, n := range []int{0, 1, 3, 5} {
+		for _, n := range []int{1, 2, 3, 5, 7, 0} {
 			for _, fam := range []string{"neg", "large", randFamily} {
 				n, fam := n, fam
 				c.Unit(fmt.Sprintf("strace/n=%d/%s", n, fam), func() {
